@@ -86,38 +86,76 @@ Proof.
   assert (n = 0) by lia; subst n. rewrite IH by (assumption || lia). reflexivity.
 Qed.
 
-(* rle_append_modify adds the positions at the end, whatever it merges *)
-Lemma expand_append_modify r a n : nonneg r -> 0 <= n ->
-  expand (rle_append_modify r (a, n)) = expand r ++ repeat a (Z.to_nat n).
+(* rle_append_nz adds the positions at the end, whatever it merges *)
+Lemma expand_append_nz r a n : nonneg r -> 0 <= n ->
+  expand (rle_append_nz r (a, n)) = expand r ++ repeat a (Z.to_nat n).
 Proof.
   induction r as [|[la lr] t IH]; intros Hr Hn; [cbn; now rewrite app_nil_r|].
   apply nonneg_cons in Hr; cbn [snd] in Hr; destruct Hr as [H1 H2].
   destruct t as [|y t'].
-  - cbn [rle_append_modify fst snd].
+  - cbn [rle_append_nz fst snd].
     destruct (attr_eqb la a) eqn:E.
     + apply attr_eqb_eq in E; subst la. cbn [expand]. rewrite !app_nil_r. now apply repeat_Z_add.
     + cbn [expand]. now rewrite !app_nil_r.
-  - change (rle_append_modify ((la, lr) :: y :: t') (a, n)) with ((la, lr) :: rle_append_modify (y :: t') (a, n)).
+  - change (rle_append_nz ((la, lr) :: y :: t') (a, n)) with ((la, lr) :: rle_append_nz (y :: t') (a, n)).
     cbn [expand]. rewrite IH by assumption. cbn [expand]. now rewrite !app_assoc.
 Qed.
 
-Lemma nonneg_append_modify r a n : nonneg r -> 0 <= n -> nonneg (rle_append_modify r (a, n)).
+Lemma nonneg_append_nz r a n : nonneg r -> 0 <= n -> nonneg (rle_append_nz r (a, n)).
 Proof.
   induction r as [|[la lr] t IH]; intros Hr Hn; [repeat constructor; assumption|].
   apply nonneg_cons in Hr; cbn [snd] in Hr; destruct Hr as [H1 H2].
   destruct t as [|y t'].
-  - cbn [rle_append_modify fst snd]. destruct (attr_eqb la a); repeat constructor; cbn [snd]; lia.
-  - change (rle_append_modify ((la, lr) :: y :: t') (a, n)) with ((la, lr) :: rle_append_modify (y :: t') (a, n)).
+  - cbn [rle_append_nz fst snd]. destruct (attr_eqb la a); repeat constructor; cbn [snd]; lia.
+  - change (rle_append_nz ((la, lr) :: y :: t') (a, n)) with ((la, lr) :: rle_append_nz (y :: t') (a, n)).
     apply nonneg_cons; split; [assumption | now apply IH].
+Qed.
+
+Lemma rle_len_append_nz r a n : rle_len (rle_append_nz r (a, n)) = rle_len r + n.
+Proof.
+  induction r as [|[la lr] t IH]; [cbn; lia|].
+  destruct t as [|y t'].
+  - cbn [rle_append_nz fst snd]. destruct (attr_eqb la a); cbn [rle_len]; lia.
+  - change (rle_append_nz ((la, lr) :: y :: t') (a, n)) with ((la, lr) :: rle_append_nz (y :: t') (a, n)).
+    cbn [rle_len] in *. rewrite IH. lia.
+Qed.
+
+(* rle_append_modify: the same, a zero-length run being dropped *)
+Lemma expand_append_modify r a n : nonneg r -> 0 <= n ->
+  expand (rle_append_modify r (a, n)) = expand r ++ repeat a (Z.to_nat n).
+Proof.
+  intros Hr Hn. unfold rle_append_modify. cbn [snd]. destruct (n =? 0) eqn:E.
+  - replace n with 0 by lia. cbn. now rewrite app_nil_r.
+  - now apply expand_append_nz.
+Qed.
+
+Lemma nonneg_append_modify r a n : nonneg r -> 0 <= n -> nonneg (rle_append_modify r (a, n)).
+Proof.
+  intros Hr Hn. unfold rle_append_modify. cbn [snd]. destruct (n =? 0); [assumption | now apply nonneg_append_nz].
 Qed.
 
 Lemma rle_len_append_modify r a n : rle_len (rle_append_modify r (a, n)) = rle_len r + n.
 Proof.
-  induction r as [|[la lr] t IH]; [cbn; lia|].
+  unfold rle_append_modify. cbn [snd]. destruct (n =? 0) eqn:E; [lia | apply rle_len_append_nz].
+Qed.
+
+(* no zero-length run is ever added *)
+Definition nozero (r : rle) : Prop := Forall (fun x : run => snd x <> 0) r.
+
+Lemma nozero_append_nz r a n : nozero r -> 0 <= n -> n <> 0 -> nonneg r -> nozero (rle_append_nz r (a, n)).
+Proof.
+  unfold nozero. induction r as [|[la lr] t IH]; intros Hz Hn Hn0 Hr; [repeat constructor; assumption|].
+  inversion Hz as [|? ? Z1 Z2]; subst. apply nonneg_cons in Hr; cbn [snd] in *; destruct Hr as [H1 H2].
   destruct t as [|y t'].
-  - cbn [rle_append_modify fst snd]. destruct (attr_eqb la a); cbn [rle_len]; lia.
-  - change (rle_append_modify ((la, lr) :: y :: t') (a, n)) with ((la, lr) :: rle_append_modify (y :: t') (a, n)).
-    cbn [rle_len] in *. rewrite IH. lia.
+  - cbn [rle_append_nz fst snd]. destruct (attr_eqb la a); repeat constructor; cbn [snd]; lia.
+  - change (rle_append_nz ((la, lr) :: y :: t') (a, n)) with ((la, lr) :: rle_append_nz (y :: t') (a, n)).
+    constructor; [assumption | now apply IH].
+Qed.
+
+Lemma nozero_append_modify r a n : nozero r -> nonneg r -> 0 <= n -> nozero (rle_append_modify r (a, n)).
+Proof.
+  intros Hz Hr Hn. unfold rle_append_modify. cbn [snd]. destruct (n =? 0) eqn:E; [assumption|].
+  apply nozero_append_nz; try assumption. lia.
 Qed.
 
 Lemma nth_repeat_lt {A} (a d : A) m k : (k < m)%nat -> nth k (repeat a m) d = a.
